@@ -521,4 +521,137 @@ Proof.
         -- rewrite Z3. destruct sx; [unfold fneg; rewrite Bsign_Bopp, Sr by (destruct r; try discriminate; reflexivity)|rewrite Sr]; reflexivity.
 Qed.
 
+(** * the fuel is sufficient: the loops run at most once per binade *)
+Definition Kmax : Z := (emax - 1 - emin)%Z.
+
+Lemma pos_ge_emin : forall Y, 0 < Y -> format Y -> bpow radix2 emin <= Y.
+Proof.
+  intros Y PY FY. apply (generic_format_ge_bpow radix2 fexp emin); [|exact PY|exact FY].
+  intros e. unfold SpecFloat.fexp. lia.
+Qed.
+
+(* a finite Y 2^k has k <= Kmax *)
+Lemma scale_bound : forall (a : fl) Y k, isv a (Y * bpow radix2 k) -> 0 < Y -> format Y -> (k <= Kmax)%Z.
+Proof.
+  intros a Y k Va PY FY. destruct (Z_le_gt_dec k Kmax) as [L|G]; [exact L|exfalso].
+  assert (bpow radix2 emax <= Y * bpow radix2 k).
+  { replace emax with (emin + (Kmax + 1))%Z at 1 by (unfold Kmax; ring). rewrite bpow_plus.
+    apply Rmult_le_compat; try apply bpow_ge_0; [apply pos_ge_emin; assumption|apply bpow_le; lia]. }
+  generalize (isv_lt_emax a _ Va). rewrite Rabs_pos_eq; [lra|].
+  apply Rmult_le_pos; [lra|apply bpow_ge_0].
+Qed.
+
+Lemma up_total :
+  forall fuel (r : fl) X Y, isv r X -> 0 < Y -> format Y ->
+  forall (a : fl) k, isv a (Y * bpow radix2 k) -> (0 <= k)%Z -> (Kmax - k < Z.of_nat fuel)%Z ->
+  exists a', g_fmod_up prec emax Hp Hpe fuel r a = Ok a'.
+Proof.
+  induction fuel as [|fuel IH]; intros r X Y Vr PY FY a k Va Hk Hf.
+  - exfalso. generalize (scale_bound a Y k Va PY FY). cbn in Hf. lia.
+  - cbn [g_fmod_up].
+    destruct (half_mul r X Vr) as [[Fm Rm] Hm].
+    assert (PA : 0 < Y * bpow radix2 k) by (apply Rmult_lt_0_compat; [exact PY|apply bpow_gt_0]).
+    unfold fle. rewrite (Bleb_correct _ _ a _ (proj1 Va) Fm), (proj2 Va), Rm.
+    destruct (Rle_bool_spec (Y * bpow radix2 k) (rnd (X / 2))) as [L|L]; [|eexists; reflexivity].
+    apply (IH r X Y Vr PY FY (fadd a a) (k + 1)%Z); [|lia|lia].
+    replace (Y * bpow radix2 (k + 1)) with (2 * (Y * bpow radix2 k)) by (rewrite bpow_plus_1; cbn; ring).
+    apply step_double; [exact Va|exact PA|].
+    assert (rnd (X / 2) <= Rabs (rnd (X / 2))) by apply Rle_abs. lra.
+Qed.
+
+Lemma down_total :
+  forall fuel (ay : fl) Y, isv ay Y -> 0 < Y ->
+  forall (r a : fl) k, is_finite r = true -> isv a (Y * bpow radix2 k) -> (0 <= k)%Z -> (k < Z.of_nat fuel)%Z ->
+  exists res, g_fmod_down prec emax Hp Hpe fuel ay r a = Ok res.
+Proof.
+  induction fuel as [|fuel IH]; intros ay Y Vy PY r a k Fr Va Hk Hf; [exfalso; cbn in Hf; lia|].
+  cbn [g_fmod_down]. unfold feq.
+  rewrite (Beqb_correct _ _ a ay (proj1 Va) (proj1 Vy)), (proj2 Va), (proj2 Vy).
+  destruct (Req_bool_spec (Y * bpow radix2 k) Y) as [E|E]; [eexists; reflexivity|].
+  assert (Hk1 : (1 <= k)%Z).
+  { destruct (Z.eq_dec k 0) as [K0|K0]; [|lia]. exfalso. apply E. rewrite K0. cbn. ring. }
+  assert (FY : format Y) by (apply (isv_format ay); exact Vy).
+  apply (IH ay Y Vy PY _ (fmul a half) (k - 1)%Z); [|apply step_halve; [exact Va|exact Hk1|exact FY]|lia|lia].
+  (* the partial remainder stays finite: r, or r - a with both finite and the difference bounded by r *)
+  destruct (fge prec emax r a) eqn:G; [|exact Fr].
+  unfold fge in G. rewrite (Bleb_correct _ _ a r (proj1 Va) Fr), (proj2 Va) in G.
+  destruct (Rle_bool_spec (Y * bpow radix2 k) (B2R r)) as [L|L]; [|discriminate G].
+  assert (PA : 0 < Y * bpow radix2 k) by (apply Rmult_lt_0_compat; [exact PY|apply bpow_gt_0]).
+  generalize (Bminus_correct prec emax Hp Hpe mode_NE r a Fr (proj1 Va)). rewrite (proj2 Va).
+  rewrite Rlt_bool_true.
+  - intros (_ & H2 & _). exact H2.
+  - apply Rle_lt_trans with (Rabs (B2R r)); [|apply abs_B2R_lt_emax].
+    apply abs_round_le_generic; try typeclasses eauto; [apply generic_format_abs, generic_format_B2R|].
+    rewrite (Rabs_pos_eq (B2R r)) by lra. rewrite Rabs_pos_eq by lra. lra.
+Qed.
+
+Lemma fuel_enough : (Kmax < Z.of_nat (g_fuel prec emax))%Z.
+Proof. unfold g_fuel, Kmax, SpecFloat.emin. rewrite Z2Nat.id by lia. lia. Qed.
+
+Lemma fmod_exact_total :
+  forall (ax ay : fl) X Y, isv ax X -> isv ay Y -> 0 < Y ->
+  exists res, g_fmod_exact prec emax Hp Hpe (g_fuel prec emax) ax ay = Ok res.
+Proof.
+  intros ax ay X Y Vx Vy PY. unfold g_fmod_exact.
+  assert (FY : format Y) by (apply (isv_format ay); exact Vy).
+  generalize fuel_enough. intros Hfuel.
+  destruct (up_total (g_fuel prec emax) ax X Y Vx PY FY ay 0%Z) as [a U]; [cbn; rewrite Rmult_1_r; exact Vy|lia|lia|].
+  rewrite U. cbn [rbind].
+  destruct (up_spec (g_fuel prec emax) ax X Y Vx PY FY ay a 0%Z) as (k & Hk & Va & _); [cbn; rewrite Rmult_1_r; exact Vy|lia|exact U|].
+  apply (down_total (g_fuel prec emax) ay Y Vy PY ax a k (proj1 Vx) Va Hk).
+  generalize (scale_bound a Y k Va PY FY). lia.
+Qed.
+
+(* the total statements: no fuel hypothesis *)
+Theorem g_fmod_total :
+  forall x y : fl, g_fmod prec emax Hp Hpe x y = Ok (spec_fmod prec emax Hp Hpe x y).
+Proof.
+  intros x y.
+  assert (H : exists v, g_fmod prec emax Hp Hpe x y = Ok v).
+  { unfold g_fmod. destruct (g_fmod_invalid prec emax Hp Hpe x y) eqn:I; [eexists; reflexivity|]. cbv zeta.
+    destruct (negb (fge prec emax (gabs x) (gabs y))) eqn:G; [eexists; reflexivity|].
+    (* both finite, y non-zero *)
+    unfold g_fmod_invalid in I.
+    rewrite (ProofsBasic.g_is_nan_exact prec emax x), (ProofsBasic.g_is_nan_exact prec emax y),
+            (ProofsBasic.g_is_finite_exact prec emax x) in I.
+    apply orb_false_elim in I. destruct I as [I Iz]. apply orb_false_elim in I. destruct I as [I If].
+    apply orb_false_elim in I. destruct I as [Inx Iny].
+    apply negb_false_iff in If. unfold spec_isfinite in If.
+    apply negb_false_iff in G.
+    assert (Fy : is_finite y = true).
+    { destruct y as [sy|sy| |sy my ey Hy]; try reflexivity; try discriminate Iny.
+      exfalso. destruct x as [sx|sx| |sx mx ex Hx]; try discriminate If; destruct sx, sy; discriminate G. }
+    destruct (gabs_isv x If) as [Vx _]. destruct (gabs_isv y Fy) as [Vy _].
+    assert (PY : 0 < Rabs (B2R y)).
+    { apply Rabs_pos_lt. intros Z0. unfold feq in Iz. rewrite (zero_eq prec emax Hp Hpe) in Iz.
+      rewrite (Beqb_correct _ _ y (B754_zero false) Fy eq_refl), Z0 in Iz. cbn [B2R] in Iz.
+      rewrite Req_bool_true in Iz by reflexivity. discriminate Iz. }
+    destruct (fmod_exact_total _ _ _ _ Vx Vy PY) as [res E]. rewrite E. cbn [rbind]. eexists; reflexivity. }
+  destruct H as [v Hv]. rewrite Hv. f_equal. apply g_fmod_exact_thm. exact Hv.
+Qed.
+
+Theorem g_remainder_total :
+  forall x y : fl, g_remainder prec emax Hp Hpe x y = Ok (spec_remainder prec emax Hp Hpe x y).
+Proof.
+  intros x y.
+  assert (H : exists v, g_remainder prec emax Hp Hpe x y = Ok v).
+  { unfold g_remainder. destruct (g_fmod_invalid prec emax Hp Hpe x y) eqn:I; [eexists; reflexivity|].
+    destruct (negb (g_is_finite prec emax y) || feq prec emax x zero) eqn:J; [eexists; reflexivity|]. cbv zeta.
+    destruct (fge prec emax (gabs x) (gabs y)) eqn:G; [|cbn [rbind]; eexists; reflexivity].
+    unfold g_fmod_invalid in I.
+    rewrite (ProofsBasic.g_is_nan_exact prec emax x), (ProofsBasic.g_is_nan_exact prec emax y),
+            (ProofsBasic.g_is_finite_exact prec emax x) in I.
+    apply orb_false_elim in I. destruct I as [I Iz]. apply orb_false_elim in I. destruct I as [I If].
+    apply negb_false_iff in If. unfold spec_isfinite in If.
+    apply orb_false_elim in J. destruct J as [Jy _]. apply negb_false_iff in Jy.
+    rewrite (ProofsBasic.g_is_finite_exact prec emax y) in Jy. unfold spec_isfinite in Jy.
+    destruct (gabs_isv x If) as [Vx _]. destruct (gabs_isv y Jy) as [Vy _].
+    assert (PY : 0 < Rabs (B2R y)).
+    { apply Rabs_pos_lt. intros Z0. unfold feq in Iz. rewrite (zero_eq prec emax Hp Hpe) in Iz.
+      rewrite (Beqb_correct _ _ y (B754_zero false) Jy eq_refl), Z0 in Iz. cbn [B2R] in Iz.
+      rewrite Req_bool_true in Iz by reflexivity. discriminate Iz. }
+    destruct (fmod_exact_total _ _ _ _ Vx Vy PY) as [res E]. rewrite E. cbn [rbind]. eexists; reflexivity. }
+  destruct H as [v Hv]. rewrite Hv. f_equal. apply g_remainder_exact_thm. exact Hv.
+Qed.
+
 End Fmt.
